@@ -13,14 +13,14 @@ def chk(pid, category, text, note, technique, design_ref, thorough=True):
 chk("C13", "fault_enumeration",
     "Every system call that touches the file's directory in each in-place scenario (5 CLI modes x inputs x pre-existing "
     "backup/temp state) is enumerated as a SIGKILL point (incl. partial writes) and as a fault point (errno menu, short "
-    "writes), singly (quick) and in pairs (thorough), by a ptrace injector on the real binary; after every execution the "
+    "writes), singly and - quick: for the changing inputs from the clean pre-state, thorough: everywhere - in pairs, by a ptrace injector on the real binary; after every execution the "
     "directory must satisfy the all-or-nothing postcondition.",
     "crash = process death at a syscall boundary; no power-loss model; ptrace + /proc/<pid>/fd attribution of calls to the directory",
-    "exhaustive syscall-level crash/fault enumeration (deviation bound 1 quick, 2 thorough) on the real binary", "3/C13")
+    "exhaustive syscall-level crash/fault enumeration (deviation bound 1 everywhere plus 2 on a slice in quick, 2 everywhere in thorough) on the real binary", "3/C13")
 chk("C14", "model_checking",
     "Explicit-state BFS over histories {user writes c, --replace with profile A/B, run killed at syscall k} with the real binary as "
-    "transition function and a reference model of the backup protocol compared after every transition; quick: depth 4 with kill "
-    "points to depth 2; thorough: to closure of the reachable state set with kill points everywhere.",
+    "transition function and a reference model of the backup protocol compared after every transition; quick: depth 6 with kill "
+    "points to depth 3; thorough: to closure of the reachable state set with kill points everywhere.",
     "state = bytes of file/backup/md5/temp + model variables; content alphabet closed under both formatters; md5 collision-freeness",
     "explicit-state BFS to closure with reference model, binary as transition function", "3/C14")
 
